@@ -295,6 +295,22 @@ func runC09(c *core.Ctx) {
 			}
 		}
 	}
+	// ---- contains on maps: the key is found whatever Go type the map gives its keys ---------------------------------------------
+	if c.Shard == 11%c.NShards && c.Begin("map-contains-key-types") {
+		maps := map[string]any{"map[string]any": map[string]any{"abc": 1, "k": nil}, "map[any]any": map[any]any{"abc": 1, "k": nil, 2: "two"}, "map[string]int": map[string]int{"abc": 1, "k": 0},
+			"map[NTitle]any": map[gen.NTitle]any{"abc": 1, "k": nil}, "NDict": gen.NDict{"abc": 1, "k": nil}, "ordered map": yaml.MapSlice{{Key: "abc", Value: 1}, {Key: "k", Value: nil}},
+			"Drop of map[any]any": gen.DropV{X: map[any]any{"abc": 1, "k": nil}}, "pointer to map": &map[string]any{"abc": 1, "k": nil}}
+		for name, m := range maps {
+			res := core.Run(e, "{% if m contains 'abc' %}T{% else %}F{% endif %}{% if m contains 'k' %}T{% else %}F{% endif %}{% if m contains 'zz' %}T{% else %}F{% endif %}{% if h.m contains key %}T{% else %}F{% endif %}{{ m contains 'abc' }}",
+				map[string]any{"m": m, "h": map[string]any{"m": m}, "key": "abc"})
+			c.Eval(1)
+			c.Obs("map_contains_cases", 1)
+			c.Distinct("mapcontains", name)
+			if !res.OK() || res.Out != "TTFTtrue" {
+				c.Violate("map-contains|"+name, "a map contains a key when it has an entry under it (also one bound to nil), whatever Go type the map has", map[string]any{"map": name, "expected": "TTFTtrue", "observed": res.Brief()})
+			}
+		}
+	}
 	// ---- integers at the edges of the signed and unsigned ranges compare by numeric value ---------------------------
 	if c.Shard == 4%c.NShards && c.Begin("integer-extremes") {
 		type iv struct {
